@@ -159,7 +159,7 @@ def run(ctx):
         cap = max([min(a, b) for a, b in zip(concs, seqs)] or [0])
         key = "peak=%d cap=%d" % (r[3][1], cap)
         peaks[key] = peaks.get(key, 0) + 1
-    p = os.path.join("evidence", ctx.pid + ".json")
+    p = fw.evidence_path(ctx.pid)
     try:
         ev = json.load(open(p))
         ev["coverage"]["peak_in_flight_vs_cap"] = dict(
